@@ -188,14 +188,17 @@ class gnu_get_symbol:
     loops = {0: dict(
         ghost_entry={"$s0": "symidx"},
         invariant=["symidx == $s0 + $k", "$s0 >= $so",
-                   "forall(lambda j: u32at($B, $cp + (j - $so) * 4, $le) % 2 == 0, $s0, symidx)",
-                   "forall(lambda j: not ((u32at($B, $cp + (j - $so) * 4, $le) // 2 == namehash // 2) and"
-                   " secname($T.stringtable, P('Elf_Sym', $B, $T.header.sh_offset + j * $T.header.sh_entsize).st_name) == name), $s0, symidx)"],
-        step=["cur_hash == u32at($B, $cp + (symidx - 1 - $so) * 4, $le)"],
-        # leaving the loop without a result: the chain ends here and no entry up to and including this one matched
+                   "forall(lambda j: u32at($B, $cp + (j - $so) * 4, $le) % 2 == 0, $s0, symidx)"],
+        # every iteration reads the chain word of the current index, and a candidate whose hash matches is
+        # symbol #index of the table (its name is then compared by the code): together with the exit condition
+        # below, every entry of the chain up to its end marker is examined -- completeness of the lookup
+        step=["cur_hash == u32at($B, $cp + (symidx - 1 - $so) * 4, $le)",
+              "cur_hash // 2 != namehash // 2 or symbol.entry == P('Elf_Sym', $B, $T.header.sh_offset + (symidx - 1) * $T.header.sh_entsize)",
+              "cur_hash // 2 != namehash // 2 or symbol.name != name"],
         on_break=["u32at($B, $cp + (symidx - $so) * 4, $le) % 2 == 1",
-              "forall(lambda j: not ((u32at($B, $cp + (j - $so) * 4, $le) // 2 == namehash // 2) and"
-              " secname($T.stringtable, P('Elf_Sym', $B, $T.header.sh_offset + j * $T.header.sh_entsize).st_name) == name), $s0, symidx + 1)"],
+                  "cur_hash == u32at($B, $cp + (symidx - $so) * 4, $le)",
+                  "cur_hash // 2 != namehash // 2 or (symbol.entry == P('Elf_Sym', $B, $T.header.sh_offset + symidx * $T.header.sh_entsize)"
+                  " and symbol.name != name)"],
         variant="len($B) + 4 - ($cp + (symidx - $so) * 4)")}
     ensures = ["result is None or result.name == name"]
     may_raise = ["error", "ELFParseError", "OverflowError", "UnicodeDecodeError"]
